@@ -4,6 +4,7 @@ import (
 	"go/ast"
 	"go/parser"
 	"go/token"
+	"os"
 	"path"
 	"regexp"
 	"strings"
@@ -108,4 +109,54 @@ func isFileSkipped(dir, filename, runOnly string) bool {
 	}
 
 	return true
+}
+
+// hasSkippedTests reports whether the snapshot file holds snapshots of a test that called
+// snaps.Skip* (or of one of its subtests), and whether it is a standalone snapshot of such a test.
+func hasSkippedTests(snapPath, filename string) (skipped, standalone bool) {
+	if len(skippedTests.values) == 0 {
+		return false, false
+	}
+
+	// standalone snapshots are named after the test: <test name, "/" replaced by "_">_<n>.snap<ext>
+	for _, name := range skippedTests.values {
+		prefix := strings.ReplaceAll(name, "/", "_") + "_"
+		if rest, ok := strings.CutPrefix(filename, prefix); ok && isStandaloneSuffix(rest) {
+			return true, true
+		}
+	}
+
+	f, err := os.Open(snapPath)
+	if err != nil {
+		return false, false
+	}
+	defer f.Close()
+
+	s := snapshotScanner(f)
+	for s.Scan() {
+		testID, match := getTestID(s.Bytes())
+		if !match {
+			continue
+		}
+		if testSkipped(testID, "") {
+			return true, false
+		}
+		removeSnapshot(s)
+	}
+
+	return false, false
+}
+
+// isStandaloneSuffix checks for [<subtest>_]<n>.snap[<ext>]
+func isStandaloneSuffix(s string) bool {
+	idx := strings.Index(s, snapsExt)
+	if idx <= 0 {
+		return false
+	}
+	number := s[:idx]
+	if i := strings.LastIndex(number, "_"); i != -1 {
+		number = number[i+1:]
+	}
+
+	return number != "" && isNumber([]byte(number))
 }
